@@ -162,7 +162,9 @@ class ODataLexer(Lexer):
     @_(_DATE + r"T" + _TIME + r"?(Z|[+-](?:[01]\d|2[0-3]):[0-5]\d)?")
     def DATETIME(self, t):
         ":meta private:"
-        t.value = ast.DateTime(t.value)
+        # The lexer is case insensitive, but `T` and `Z` are expected in upper case
+        # by consumers (e.g. SQL's `TIMESTAMP '...'`), like for durations:
+        t.value = ast.DateTime(t.value.upper())
         return t
 
     @_(_DATE)
